@@ -280,7 +280,7 @@ func (s *Sched) Gate(point string) {
 		return
 	}
 	switch point {
-	case "worker.suspend", "worker.resume", "remove.round", "handle.suspended", "stop.close":
+	case "worker.suspend", "worker.resume", "worker.resumed", "remove.round", "handle.suspended", "stop.close":
 		// never park at a hand-shake gate with a short-section mutex locked
 		inst := g.Inst
 		s.mu.Unlock()
